@@ -1,4 +1,4 @@
-import Proofs.SubmitRestart
+import Proofs.SubmitReach
 
 /-!
 # C06 — every committed block reaches the DA layer in order; the watermark is sound
@@ -7,6 +7,13 @@ Model: `Submit.submitLoop` (`block/submitter.go` `submitToDA` with the bookkeepi
 `Submit.raiseWm` (`pendingBase.setLastSubmittedHeight`), `Submit.headersIter` / `Submit.dataIter` (one tick of the two
 submission loops), `Submit.restart`; executable and compared with the real code on every run (stream C06).
 The DA layer is the ghost double `daH` / `daBlobs : List (DA height × isData × block height)`.
+
+Main theorem: `C06` (§4) — for **every initial height ≥ 1**, every node reachable from a fresh start by any interleaving
+of production steps, header / data submission ticks (any DA answers), inclusion passes and restarts has both watermarks
+in `[initialHeight − 1, chain height]`, its pending ranges are stored, everything at or below the header watermark is on
+the DA layer, and a header tick against a DA layer that eventually accepts ends with `hdrWm = chain height`.
+(Until /repo 6924f89 the watermarks started at 0 and a chain with initial height > 1 never submitted anything; the
+former `C06_full_fails` is now `C06_old_witness_now_submits`.)
 
 All theorems quantify over **every** list of DA answers (`script`: accepted, partially accepted, accepted with the
 acknowledgement lost, not included, in mempool, too big, error, cancelled), every item list, every node.
@@ -182,62 +189,119 @@ theorem C06_persisted (d : Bool) (fuel : Nat) (a : ANode) (items : List Item) (s
   | false => exact ⟨hi.persisted h1, hi.persisted_other h2⟩
   | true => exact ⟨hi.persisted_other h1, hi.persisted h2⟩
 
-/-- **Restart reloads exactly the persisted watermarks**, hence (with the theorem above) the watermarks in memory after
-a restart equal those before it: they never decrease across a restart and nothing acknowledged is skipped or forgotten. -/
+/-- **Restart reloads the persisted watermarks, raised to `initialHeight − 1`** (`NewManager`), hence (with the theorem
+above) the watermarks in memory never decrease across a restart, and for a node whose watermarks are at least
+`initialHeight − 1` — every reachable node, `C06` — they are exactly those before it: nothing acknowledged is skipped or
+forgotten. -/
 theorem C06_restart_keeps_watermarks {c : Cfg} {a a' : ANode} {clean : Bool}
     (h : restart c a a.n.store clean = some a')
     (hp1 : Persisted false a) (hp2 : Persisted true a) (hb1 : a.n.hdrWm < 2 ^ 64) (hb2 : a.n.dataWm < 2 ^ 64) :
-    a'.n.hdrWm = a.n.hdrWm ∧ a'.n.dataWm = a.n.dataWm := by
+    a.n.hdrWm ≤ a'.n.hdrWm ∧ a.n.dataWm ≤ a'.n.dataWm ∧
+    (c.initialHeight ≤ a.n.hdrWm + 1 → a'.n.hdrWm = a.n.hdrWm) ∧
+    (c.initialHeight ≤ a.n.dataWm + 1 → a'.n.dataWm = a.n.dataWm) := by
   obtain ⟨e1, e2, _⟩ := restart_wm h hp1 hp2 hb1 hb2
-  exact ⟨e1, e2⟩
+  rw [e1, e2]
+  exact ⟨(wmRaise_ge c _).1, (wmRaise_ge c _).1, wmRaise_eq, wmRaise_eq⟩
 
-/-! ## 4. initial heights above 1 -/
+/-! ## 4. every reachable node, every initial height ≥ 1 -/
 
-/-- full statement, every initial height ≥ 1: after any production run from a fresh start, one header iteration against
-an accepting DA layer brings the header watermark to the chain height -/
+/-- **C06, main theorem.**  Let the initial height be any `≥ 1` and let `a` be reached from the node `NewManager`
+builds on an empty disk (`Producer.start c {} = freshNode c`, `Producer.start_empty`) by **any** list of actions
+`ActR`: production steps (any sequencer / execution answers), header submission ticks and data submission ticks (any DA
+answer lists), inclusion passes, and restarts on the node's durable image (clean, or a crash between two actions).  Then
+
+1. both last-submitted heights lie in `[initialHeight − 1, chain height]`;
+2. the pending range of either kind contains only committed heights — `pendingBlocks` never asks for a height below
+   the initial height and never fails (`getPending` finds every block), and the headers of `(hdrWm, height]` carry their
+   own height;
+3. every committed height `initialHeight ≤ h ≤ hdrWm` is a stored block whose header blob the DA double holds
+   (the watermark never moved past a height the DA layer did not accept);
+4. **a header tick against a DA layer that accepts after fewer than 30 non-cancellation failures ends with
+   `hdrWm = chain height`**, with outcome `done` whenever something was pending. -/
+theorem C06 (c : Cfg) (hpos : 1 ≤ c.initialHeight) (acts : List ActR) :
+    let a := runR c { n := freshNode c } acts
+    (c.initialHeight - 1 ≤ a.n.hdrWm ∧ a.n.hdrWm ≤ a.n.store.height) ∧
+    (c.initialHeight - 1 ≤ a.n.dataWm ∧ a.n.dataWm ≤ a.n.store.height) ∧
+    (∀ h, a.n.hdrWm < h → h ≤ a.n.store.height →
+      c.initialHeight ≤ h ∧ ∃ b, a.n.store.getBlock h = some b ∧ b.sh.hdr.height = h) ∧
+    (∃ bs, pendingBlocks a.n.store a.n.hdrWm = some bs) ∧ (∃ bs, pendingBlocks a.n.store a.n.dataWm = some bs) ∧
+    (∀ h, c.initialHeight ≤ h → h ≤ a.n.hdrWm → ∃ b dh, a.n.store.getBlock h = some b ∧ b.sh.hdr.height = h ∧
+      (dh, false, h) ∈ a.daBlobs) ∧
+    ∀ (fails tail : List DAAns), tail.headD (.ok none) = .ok none → DAAns.canceled ∉ fails →
+      fails.length < maxSubmitAttempts →
+      (headersIter a (fails ++ tail)).1.n.hdrWm = (headersIter a (fails ++ tail)).1.n.store.height ∧
+      (a.n.hdrWm < a.n.store.height → (headersIter a (fails ++ tail)).2.2.2 = .done) := by
+  intro a
+  have r : R c a := (R_fresh c hpos).run acts
+  have hok := hdrOK_of_inv r.pinv r.low
+  have l1 := r.low
+  have l2 := r.dlow
+  refine ⟨⟨by omega, r.le⟩, ⟨by omega, r.dle⟩, fun h h1 h2 => ⟨by omega, hok h h1 h2⟩, ?_, ?_, r.acc,
+    fun fails tail htail hnc hf => headersIter_reaches a fails tail htail hnc hf hok r.le⟩
+  · exact pendingBlocks_exists (fun k k1 k2 => by obtain ⟨b, hb, _⟩ := hok k k1 k2; exact ⟨b, hb⟩)
+  · exact pendingBlocks_exists (fun k k1 k2 => by
+      obtain ⟨b, hb, _⟩ := r.pinv.chain k (by omega) k2; exact ⟨b, hb⟩)
+
+/-- **a restart of a reachable node never fails** (`NewManager` finds parsable watermarks, a state not below the
+genesis, …), whether after a clean stop or a crash between two actions; it never raises a watermark above
+`max(old, initialHeight − 1)` and keeps the DA layer and the chain height -/
+theorem C06_restart_succeeds (c : Cfg) (hpos : 1 ≤ c.initialHeight) (acts : List ActR) (clean : Bool) :
+    let a := runR c { n := freshNode c } acts
+    ∃ a', restart c a a.n.store clean = some a' ∧ a'.n.hdrWm ≤ a.n.hdrWm ∧ a'.n.dataWm ≤ a.n.dataWm ∧
+      a.n.store.height ≤ a'.n.store.height ∧ a'.daBlobs = a.daBlobs := by
+  intro a
+  have r : R c a := (R_fresh c hpos).run acts
+  obtain ⟨a', h, _, h1, h2, h3, h4⟩ := r.restart clean
+  rw [wmRaise_eq r.low] at h1
+  rw [wmRaise_eq r.dlow] at h2
+  exact ⟨a', h, h1, h2, h3, h4⟩
+
+/-- the statement of the earlier rounds (production runs only, accepting DA layer): after any production run from a
+fresh start, one header iteration against an accepting DA layer brings the header watermark to the chain height — for
+every initial height ≥ 1 -/
 def C06_full : Prop :=
   ∀ (c : Cfg) (rs : List (SeqResp × ExecResp)), 1 ≤ c.initialHeight →
     (headersIter { n := run c (freshNode c) rs } []).1.n.hdrWm = (run c (freshNode c) rs).store.height
 
-/-- **With an initial height above 1 nothing is ever submitted**: the pending range starts at height 1
-(`pendingBase` starts at watermark 0), which is never stored, so for every production run, every DA answer list and for
-ever, both iterations fail to fetch, issue no `Submit` call and leave the node unchanged. -/
-theorem C06_initial_height_above_one_never_submits (c : Cfg) (hih : 2 ≤ c.initialHeight)
-    (rs : List (SeqResp × ExecResp)) (a : ANode) (ha : a.n = run c (freshNode c) rs) (script : List DAAns) :
-    headersIter a script = (a, [], [], .fetchErr) ∧ dataIter a script = (a, [], [], .fetchErr) := by
-  obtain ⟨h1, h2⟩ := run_block_one_missing c hih rs
-  obtain ⟨w1, w2⟩ := run_wm c (freshNode c) rs
-  rw [← ha] at h1 h2 w1 w2
-  have w1' : a.n.hdrWm = 0 := w1
-  have w2' : a.n.dataWm = 0 := w2
-  exact ⟨headersIter_stuck a script 1 (by omega) h1 h2, dataIter_stuck a script 1 (by omega) h1 h2⟩
+theorem runA_produce (c : Cfg) (a : ANode) (rs : List (SeqResp × ExecResp)) :
+    runA c a (rs.map fun r => .produce r.1 r.2) = { a with n := run c a.n rs } := by
+  induction rs generalizing a with
+  | nil => rfl
+  | cons r rs ih => exact ih _
+
+/-- **it holds now** (it was refuted by the witness below until /repo 6924f89) -/
+theorem C06_full_holds : C06_full := by
+  intro c rs hpos
+  have h := (C06 c hpos ((rs.map fun r => Act.produce r.1 r.2).map .act)).2.2.2.2.2.2 [] [] rfl (by simp) (by decide)
+  rw [runR_act, runA_produce] at h
+  have hi := (headersIter_inv { n := run c (freshNode c) rs } []).choose_spec.choose_spec.choose_spec.1.frame.height
+  exact h.1.trans hi
 
 def w3Cfg : Cfg := { chainId := "w", initialHeight := 3, genesisTime := 100, proposerAddr := [1], key := 1, signerAddr := [1] }
 def w3Run : List (SeqResp × ExecResp) := [(.batch [[1]] 200 [], .ok), (.batch [[2]] 300 [], .ok)]
 
-/-- **The full statement is false of the current code** (initial height 3; recorded finding
-`C06/…/initial-height`, replayed on the real node by stream C06). -/
-theorem C06_full_fails : ¬ C06_full := by
-  intro h
-  have h1 := h w3Cfg w3Run (by decide)
-  have h2 := run_block_one_missing w3Cfg (by decide) w3Run
-  have h3 := (run_wm w3Cfg (freshNode w3Cfg) w3Run).1
-  have h0 : (freshNode w3Cfg).hdrWm = 0 := rfl
-  rw [h0] at h3
-  generalize run w3Cfg (freshNode w3Cfg) w3Run = X at h1 h2 h3
-  rw [headersIter_stuck { n := X } [] 1 (by show X.hdrWm < 1; omega) h2.1 h2.2] at h1
-  have : X.hdrWm = X.store.height := h1
-  omega
-
-/-- the same, evaluated by the kernel on the witness: two blocks committed (heights 3, 4), nothing submitted -/
-example : (run w3Cfg (freshNode w3Cfg) w3Run).store.height = 4 ∧
-    (headersIter { n := run w3Cfg (freshNode w3Cfg) w3Run } []).2.2.2 = .fetchErr ∧
-    (headersIter { n := run w3Cfg (freshNode w3Cfg) w3Run } []).2.2.1.length = 0 := by
+/-- **The witness that refuted the full statement (initial height 3, two blocks; former `C06_full_fails`, finding
+`C06/never-submitted/initial-height-above-1`, now fixed) submits its headers**, evaluated by the kernel: the node starts
+with both watermarks at 2 = `initialHeight − 1`, persisted; after the two blocks (heights 3, 4) one header tick issues
+one `Submit` call carrying the headers of 3 and 4, the DA double stores them, the watermark is 4 in memory and on disk,
+outcome `done`; and the data tick (block 3 is the empty genesis block, block 4 carries a transaction) brings the data
+watermark to 4 as well. -/
+theorem C06_old_witness_now_submits :
+    (freshNode w3Cfg).hdrWm = 2 ∧ (freshNode w3Cfg).dataWm = 2 ∧
+    (freshNode w3Cfg).store.getMeta Submit.hdrWmKey = some (le64 2) ∧
+    (run w3Cfg (freshNode w3Cfg) w3Run).store.height = 4 ∧
+    (let r := headersIter { n := run w3Cfg (freshNode w3Cfg) w3Run } []
+     r.1.n.hdrWm = 4 ∧ r.2.2.2 = .done ∧ r.2.2.1.map (·.heights) = [[3, 4]] ∧
+     r.1.daBlobs.map (fun e => (e.2.1, e.2.2)) = [(false, 4), (false, 3)] ∧
+     r.1.n.store.getMeta Submit.hdrWmKey = some (le64 4)) ∧
+    (let r := dataIter { n := run w3Cfg (freshNode w3Cfg) w3Run } []
+     r.1.n.dataWm = 4 ∧ r.2.2.2 = .done ∧ r.2.2.1.map (·.heights) = [[4]]) := by
   decide +kernel
 
-/-- **Partial statement** (everything except the refuted case): for every node that satisfies the producer's invariant
-and whose header watermark is at least `initialHeight − 1` — every node of a chain with initial height 1 — an iteration
-against a DA layer that accepts after fewer than 30 non-cancellation failures brings the watermark to the chain height. -/
+/-- **Corollary for an arbitrary node** (the former partial statement; its hypothesis `initialHeight ≤ hdrWm + 1` now
+holds of every reachable node, `C06`): for every node that satisfies the producer's invariant and whose header watermark
+is at least `initialHeight − 1`, an iteration against a DA layer that accepts after fewer than 30 non-cancellation
+failures brings the watermark to the chain height. -/
 theorem C06_partial {c : Cfg} {a : ANode} (hi : Inv c a.n) (hw : c.initialHeight ≤ a.n.hdrWm + 1)
     (hle : a.n.hdrWm ≤ a.n.store.height) (fails tail : List DAAns)
     (htail : tail.headD (.ok none) = .ok none) (hnc : DAAns.canceled ∉ fails) (hf : fails.length < maxSubmitAttempts) :
@@ -265,6 +329,23 @@ example : let r := headersIter xNode [.error, .notIncluded, .lost (some 1), .ok 
 
 /-- a cancelled submission stops at once and is not counted as complete -/
 example : (headersIter xNode [.canceled]).2.2.2 = .incomplete ∧ (headersIter xNode [.canceled]).1.n.hdrWm = 0 := by
+  decide +kernel
+
+/-- initial height 3, an interleaving with a DA outage, a clean restart and a crash restart: the watermarks start at 2,
+follow the chain through the restarts and end at the chain height 5 -/
+def w3Acts : List ActR :=
+  [.restart true, .act (.produce (.batch [[1]] 200 []) .ok), .act (.subH [.error, .lost none, .ok (some 1)]),
+   .restart true, .act (.produce (.batch [[7]] 300 []) .ok), .act (.subD []), .restart false,
+   .act (.produce (.batch [[2]] 400 []) .ok), .act (.subH []), .act (.subD []), .act .incl]
+
+example : (runR w3Cfg { n := freshNode w3Cfg } (w3Acts.take 3)).n.hdrWm = 3 ∧
+    (runR w3Cfg { n := freshNode w3Cfg } (w3Acts.take 4)).n.hdrWm = 3 ∧
+    (runR w3Cfg { n := freshNode w3Cfg } (w3Acts.take 7)).n.dataWm = 4 ∧
+    (runR w3Cfg { n := freshNode w3Cfg } w3Acts).n.store.height = 5 ∧
+    (runR w3Cfg { n := freshNode w3Cfg } w3Acts).n.hdrWm = 5 ∧
+    (runR w3Cfg { n := freshNode w3Cfg } w3Acts).n.dataWm = 5 ∧
+    (runR w3Cfg { n := freshNode w3Cfg } w3Acts).daBlobs.map (fun e => (e.2.1, e.2.2)) =
+      [(true, 5), (false, 5), (false, 4), (true, 4), (false, 3), (false, 3)] := by
   decide +kernel
 
 end Spec.C06
